@@ -44,6 +44,23 @@ CHECKS = {
                   "optimize/ask/tell; recorded runs validated by TLC (trace validation)",
         ref="DESIGN.md section 4 C02, section 3.7",
     ),
+    "C03": dict(
+        text="LinStorage.tla states linearizability of the Storage contract directly: a history of call starts/ends of "
+             "several workers plus the final read-back state is accepted iff TLC finds one linearization point per call "
+             "(internal Lin action) under which the contract yields exactly the recorded replies and final state. Real "
+             "threads run under a deterministic scheduler with preemption at every source line of the storage layer "
+             "(in-memory storage; one JournalStorage shared by threads; one JournalStorage per worker on one journal), and "
+             "several SQLite connections are interleaved per SQL statement/commit (lock waits become the reply Busy = no "
+             "effect): every ordered pair of a 16-call alphabet with a single preemption at each (quick: sampled) point, plus "
+             "random 2-3 worker schedules. About 2400 histories per quick run, each validated by TLC.",
+        note="Trusted: TLC, line-level (not bytecode-level) preemption, the GIL's atomicity of C-level container "
+             "operations, the creation-order id normalisation (ids must be handed out in linearization order). The file "
+             "backend's own concurrency is C07; cached/gRPC clients under threads are not scheduled yet. Known finding K1 "
+             "(SQLite compare-and-set) is matched by shape (two overlapping set_trial_state_values on one trial).",
+        technique="linearizability as a TLA+ trace specification, search over linearization points by TLC; real threads "
+                  "under a deterministic line-level / SQL-statement-level scheduler",
+        ref="DESIGN.md section 4 C03, section 3.2",
+    ),
     "C05": dict(
         text="Journal file: JournalFile.tla models append_logs/read_logs and both lock classes one system call per "
              "action, with Crash enabled at every point of an append and the grace-period takeover; TLC checks "
@@ -88,6 +105,32 @@ CHECKS = {
                   "executions validated by TLC (trace validation)",
         ref="DESIGN.md section 4 C07, section 3.3",
     ),
+    "C08": dict(
+        text="CacheSync.tla models the watermark + unfinished-set cache of _CachedStorage / GrpcClientCache one critical "
+             "section per action and TLC checks that every read equals the backend for all histories of 2 clients, 2 studies "
+             "sharing the id space, trials finishing out of creation order and finished templates (the pre-repair "
+             "create_new_trial must fail). Real histories: three clients of ONE database (two caching or proxying, one raw; "
+             "SQLite file, or one gRPC server over in-memory / journal / SQLite) issue interleaved calls; after every call "
+             "TLC validates the client's reply and the database state read by an uncached observer against the Storage "
+             "contract on the single shared state - a cache is correct iff it is invisible.",
+        note="Trusted: TLC, the projection shared with C01. Clients interleave at call granularity (threads inside one "
+             "client: C03). Known findings K2 (SQLite id reuse) and K5 (name/directions cached for ever) matched by shape.",
+        technique="TLA+ cache-algorithm spec model-checked with TLC; multi-client histories on real cached/proxied "
+                  "storages validated by TLC against the storage contract (trace validation)",
+        ref="DESIGN.md section 4 C08, section 3.5",
+    ),
+    "C12": dict(
+        text="Best.tla: EligibleBest(history, direction) with the feasibility classes, ParetoSet via Pareto.tla; 17 oracle "
+             "theorems model-checked over all histories of the bounded instances. Every history of the instances (all five "
+             "states, duplicate and infinite values, 1-3 objectives with every direction vector, missing/violated "
+             "constraints; count cross-checked with the spec's state count) plus random larger ones is built on real "
+             "backends (in-memory exhaustively; journal, SQLite, cached, gRPC sampled) in several arrival orders, and TLC "
+             "judges best_trial, best_value, best_trials and storage.get_best_trial.",
+        note="Trusted: TLC, small-integer value tokens. Which of several equal trials is returned is open; D8 "
+             "(constraint-less trials), D11 (two documented errors at once).",
+        technique="TLA+ oracle model-checked with TLC; answers of the real study API validated by TLC (trace validation)",
+        ref="DESIGN.md section 4 C12, section 3.8",
+    ),
     "C14": dict(
         text="BruteForce.tla / Grid.tla: property-level machines over a program given as its set of leaf paths "
              "(Optimize/StartTrial/Suggest/Finish/Abort/Return), with NoDuplicateLeaf, AllLeavesVisitedAtStop and "
@@ -114,6 +157,21 @@ CHECKS = {
              "arithmetic on small integers. Degenerate 0*inf volumes admit both conventions (D12).",
         technique="TLA+ oracle (Pareto.tla) model-checked with TLC; real-kernel answers validated as traces by TLC",
         ref="DESIGN.md section 4 C15, section 3.8",
+    ),
+    "C16": dict(
+        text="Pruners.tla: the safety envelope (no prune before warm-up, before the start-up trials, between checks, inside "
+             "the patience window, before the first rung; a strictly-best-everywhere trial is never pruned by "
+             "median/percentile/SHA/Hyperband without bootstrap; Threshold exact; Nop never) recomputed by the spec from the "
+             "consumed events, plus exact integer algorithm models of the pruners checked by TLC to stay inside the envelope. "
+             "About 2900 studies per run are PLAYED through the real API (ask/report/should_prune/tell interleaved over "
+             "several RUNNING trials, both directions, NaN, gaps; in-memory, id-offset and SQLite storages) from TLC "
+             "-simulate behaviours and a seeded generator; every should_prune decision is validated by TLC; the Hyperband "
+             "bracket is checked to be a function of (study name, trial number) by a memo action.",
+        note="Trusted: TLC, small-integer value tokens. Start-up trials are counted as all finished trials (docstring); "
+             "n_min_trials is not part of the property; negative controls (lenient gates, tie handling) stay silent.",
+        technique="TLA+ envelope spec + algorithm models model-checked with TLC; played studies validated by TLC "
+                  "(trace validation)",
+        ref="DESIGN.md section 4 C16, section 3.8",
     ),
     "C17": dict(
         text="SearchSpace.tla: trials created/claimed/suggested/finished in any order with Calculate as observation point; "
